@@ -51,13 +51,16 @@ var allCfg = []int{0, 1, 2}
 // ---------- connection ----------
 
 type uniLog struct {
+	on     *int32
 	mu     sync.Mutex
 	events []string
 	fetchN int
 }
 
 func (u *uniLog) add(s string) {
-	atomic.AddInt64(&uniCount, 1)
+	if atomic.LoadInt32(u.on) != 0 {
+		atomic.AddInt64(&uniCount, 1)
+	}
 	u.mu.Lock()
 	u.events = append(u.events, s)
 	u.mu.Unlock()
@@ -86,6 +89,8 @@ type conn struct {
 	cmds  int
 	// capture: diagnostic mode, keep the wire output
 	capture bool
+	// counting: this execution contributes to the non-vacuity counters (first runs only)
+	counting int32
 }
 
 type worker struct {
@@ -122,6 +127,7 @@ func (w *worker) getConn(cfg config, extra []imap.Cap) (*conn, error) {
 	cn := w.conns[key]
 	if cn == nil {
 		cn = &conn{w: w, cfg: cfg, uni: &uniLog{}, caps: capsFor(cfg, extra)}
+		cn.uni.on = &cn.counting
 		cn.ss = srvkit.NewStubServer(imapserver.Options{Caps: cn.caps, InsecureAuth: true})
 		cn.ss.Prepare = func(s *srvkit.Stub) { cn.stub = s }
 		w.conns[key] = cn
@@ -156,7 +162,7 @@ func (cn *conn) dial() error {
 				u.add("mailbox " + kvString(f.l))
 			},
 			Fetch: func(msg *imapclient.FetchMessageData) {
-				gm := drainMessage(msg)
+				gm := drainMessage(msg, &cn.counting)
 				u.mu.Lock()
 				u.events = append(u.events, fmt.Sprintf("fetch seq=%d %s", gm.seq, kvString(gm.f)))
 				u.fetchN++
@@ -321,9 +327,12 @@ func nontrivialFlat(exp []kv) bool {
 	return false
 }
 
-var distinctCases, distinctNontrivial int64
+var distinctCases, distinctNontrivial, reruns int64
 
 func (cn *conn) account(exp []kv, force bool) {
+	if atomic.LoadInt32(&cn.counting) == 0 {
+		return // re-runs for pinpointing are scheduling-dependent: only first executions count
+	}
 	sig := sigOf(cn.cfg.Name, exp)
 	sh := &sigSets[sig%sigShards]
 	sh.mu.Lock()
@@ -528,7 +537,7 @@ func mkJobs(thorough bool) []job {
 // execSafe runs a batch, reconnecting first when needed. A connection that cannot be set up
 // (greeting / LOGIN / ENABLE do not come through) is a verdict about the code under test, not an
 // engine error: those responses are server data reaching the client too.
-func (w *worker) execSafe(f *family, ci int, idxs []int) []outcome {
+func (w *worker) execSafe(f *family, ci int, idxs []int, first bool) []outcome {
 	cn, err := w.getConn(configs[ci], f.caps)
 	if err != nil {
 		cn, err = w.getConn(configs[ci], f.caps) // one retry
@@ -541,7 +550,11 @@ func (w *worker) execSafe(f *family, ci int, idxs []int) []outcome {
 		return outs
 	}
 	w.tick(fmt.Sprintf("%s cfg=%s idx=%v", f.name, configs[ci].Name, idxs))
+	if first {
+		atomic.StoreInt32(&cn.counting, 1)
+	}
 	outs := f.exec(cn, idxs)
+	atomic.StoreInt32(&cn.counting, 0)
 	cn.after()
 	if len(outs) != len(idxs) {
 		run.EngineError("family %s returned %d outcomes for %d cases", f.name, len(outs), len(idxs))
@@ -557,7 +570,7 @@ type caseRef struct {
 
 func (w *worker) runJob(j job) {
 	f := j.fam
-	outs := w.execSafe(f, j.cfg, j.idxs)
+	outs := w.execSafe(f, j.cfg, j.idxs, true)
 	run.AddEvals(int64(len(j.idxs)))
 	run.Add("cases:"+f.name, int64(len(j.idxs)))
 	run.Add("commands", 1)
@@ -570,37 +583,49 @@ func (w *worker) runJob(j job) {
 	if !bad {
 		return
 	}
-	// pinpoint: every case of the batch alone, on its own command
+	// pinpoint: a case that failed inside a batch (or was not reached because the connection
+	// died) is run alone on its own command, unless a smaller case with the same key is on record
 	single := map[int]outcome{}
-	anyBad := false
+	var batchOnly []int
 	for k, i := range j.idxs {
+		o := outs[k]
+		if o.OK {
+			continue
+		}
 		if len(j.idxs) == 1 {
-			single[i] = outs[k]
-		} else {
-			single[i] = w.execSafe(f, j.cfg, []int{i})[0]
-			run.Add("reruns", 1)
+			single[i] = o
+			continue
 		}
-		if !single[i].OK {
-			anyBad = true
-		}
-	}
-	if !anyBad {
-		// fails only in company: report the batch itself
-		var first outcome
-		for _, o := range outs {
-			if !o.OK && !o.NotRun {
-				first = o
-				break
+		if !o.NotRun {
+			key := o.Key
+			if f.renameKey != nil {
+				key = f.renameKey(i, key, &o)
+			}
+			if r := knownRank(key); r != nil && !rankLess([3]int{famRank(f.name), i, j.cfg}, *r) {
+				continue
 			}
 		}
-		d := map[string]interface{}{"case": caseRef{f.name, configs[j.cfg].Name, j.idxs[0]}, "batch": j.idxs,
-			"note": "every case passes alone; the batch fails", "batch_outcome": first.Detail, "batch_key": first.Key}
+		so := w.execSafe(f, j.cfg, []int{i}, false)[0]
+		atomic.AddInt64(&reruns, 1) // scheduling-dependent (see knownRank): printed, not part of the evidence
+		if so.OK {
+			if !o.NotRun {
+				batchOnly = append(batchOnly, k)
+			}
+			continue
+		}
+		single[i] = so
+	}
+	if len(batchOnly) > 0 && len(single) == 0 {
+		// fails only in company: report the batch itself
+		first := outs[batchOnly[0]]
+		d := map[string]interface{}{"case": caseRef{f.name, configs[j.cfg].Name, j.idxs[batchOnly[0]]}, "batch": j.idxs,
+			"note": "the case passes alone; it fails inside this batch (one command carrying all of them)", "batch_outcome": first.Detail, "batch_key": first.Key}
 		report("batch-only:"+f.name, f.name, j.cfg, j.idxs[0], d)
 		return
 	}
 	for _, i := range j.idxs {
-		o := single[i]
-		if o.OK {
+		o, bad := single[i]
+		if !bad {
 			continue
 		}
 		// replay 3 more times with the wire captured: must be deterministic. (A key that has
@@ -694,8 +719,9 @@ func main() {
 		var doc struct {
 			Tier string `json:"tier"`
 		}
-		if b, err := os.ReadFile(run.Replay); err == nil && json.Unmarshal(b, &doc) == nil && doc.Tier != "" {
+		if b, err := os.ReadFile(run.Replay); err == nil && json.Unmarshal(b, &doc) == nil && (doc.Tier == "quick" || doc.Tier == "thorough") {
 			thorough = doc.Tier == "thorough"
+			run.Tier = doc.Tier // a re-written artefact keeps the tier its index refers to
 		}
 		buildFamilies(thorough)
 		replay(run.Replay)
@@ -795,7 +821,7 @@ func main() {
 			run.Sample(f.name, f.desc(f.n/2))
 		}
 	}
-	fmt.Printf("C03 tier=%s cases=%d (x configs) commands=%d reruns=%d workers=%d\n", run.Tier, total, run.Get("commands"), run.Get("reruns"), nw)
+	fmt.Printf("C03 tier=%s cases=%d (x configs) commands=%d reruns=%d workers=%d\n", run.Tier, total, run.Get("commands"), atomic.LoadInt64(&reruns), nw)
 	sort.Strings(names)
 	fmt.Printf("C03 families: %s\n", strings.Join(names, " "))
 	run.Finish()
